@@ -43,6 +43,18 @@ InhFails(e) ==
       eq == EqExp(e.cls, e.a, e.b, rel, FALSE) IN
   (IF e.eq = Tf(eq) /\ e.qe = Tf(eq) THEN {} ELSE {"equality"})
   \cup (IF e.ne = Tf(~eq) THEN {} ELSE {"inequality"})
+(* a subclass with one more field, with / without eq=False: e.so, e.za, e.zb beside the base's field values *)
+SubFails(e) ==
+  LET c == e.cls
+      eq == SubEqExp(c, e.so, e.a, e.b, e.za, e.zb)
+      k == SubHashKind(c, e.so) IN
+  (IF e.eq = Tf(eq) /\ e.qe = Tf(eq) THEN {} ELSE {"equality"})
+  \cup (IF e.ne = Tf(~eq) THEN {} ELSE {"inequality"})
+  \cup (IF k = "none" THEN (IF e.ha = "unhashable" /\ e.hb = "unhashable" THEN {} ELSE {"hash-rule-table"})
+        ELSE (IF e.ha = "ok" /\ e.hb = "ok" THEN {} ELSE {"hash-rule-table"}))
+  \cup (IF SubLawApplies(c, e.so) /\ e.eq = "T" /\ e.heq = "F" THEN {"equal-instances-hash-differently"} ELSE {})
+  \cup (IF k \in {"own", "base", "const"} /\ e.heq = "F" /\ SubHashEqExp(c, e.so, e.a, e.b, e.za, e.zb)
+        THEN {"hash-not-of-hash-fields"} ELSE {})
 DefSubFails(e) == IF e.out = "ok" THEN {} ELSE {"class-creation-failed"}
 
 MutateFails(e) ==
@@ -82,6 +94,7 @@ Fails(e) == CASE e.op = "defvcls" -> DefFails(e)
               [] e.op = "copyop" -> CopyFails(e)
               [] e.op = "repr" -> ReprFails(e)
               [] e.op = "cmpinh" -> InhFails(e)
+              [] e.op = "cmpsub" -> SubFails(e)
               [] e.op = "defsub" -> DefSubFails(e)
               [] OTHER -> {"unknown-event"}
 
